@@ -78,8 +78,11 @@ class Session:
     # -- chaos / failures ----------------------------------------------------------------------
     def delay(self, kind: str) -> int:
         """Number of loop turns the external operation `kind` takes."""
+        kinds = getattr(self.chaos, "kinds", None)
+        if self.chaos is None or (kinds is not None and kind not in kinds):
+            return 0
         self.points += 1
-        return self.chaos.draw() if self.chaos is not None else 0
+        return self.chaos.draw()
 
     async def point(self, kind: str) -> None:
         for _ in range(self.delay(kind)):
